@@ -201,6 +201,12 @@ func (s *Sched) Settle() bool {
 	return true
 }
 
+func (s *Sched) settledNow() bool {
+	s.mu.Lock()
+	defer s.mu.Unlock()
+	return s.settledLocked()
+}
+
 // Runnable returns the parked actors in creation order.
 func (s *Sched) Runnable() []*actor {
 	s.mu.Lock()
@@ -270,6 +276,17 @@ func (s *Sched) Release() {
 		a.grant <- struct{}{}
 	}
 	_ = tasks
+}
+
+// Busy adjusts the number of harness goroutines (auto-answers, dialers) that
+// are in flight; Settle waits for it to drop to zero.
+func (s *Sched) Busy(d int) { s.HTTPStarting(d) }
+
+// Detach switches to counting mode before anything runs: nothing ever parks.
+func (s *Sched) Detach() {
+	s.mu.Lock()
+	s.detached = true
+	s.mu.Unlock()
 }
 
 // HTTPStarting adjusts the number of HTTP handler goroutines that have been
